@@ -418,9 +418,9 @@ pub fn generate(profile: &str, seed: u64, index: u64) -> NScenario {
             } else if tr.ret == "bool" {
                 *rng.pick(&["boolean", "boolean", "raw", "unchecked"])
             } else if tr.kind == "real" {
-                *rng.pick(&["raw", "checked", "unchecked", "closure", "fakemacro", "realfn", "fakecounted"])
+                *rng.pick(&["raw", "checked", "unchecked", "closure", "fakemacro", "realfn", "fakecounted", "closure_unchecked", "func_unchecked"])
             } else {
-                *rng.pick(&["raw", "checked", "unchecked", "raw", "closure", "realfn", "fakecounted"])
+                *rng.pick(&["raw", "checked", "unchecked", "raw", "closure", "realfn", "fakecounted", "closure_unchecked", "func_unchecked"])
             };
             let fake = *rng.pick(&fake_ids);
             let fault = if profile == "C11" && rng.chance(1, 6) {
@@ -763,7 +763,7 @@ impl<'a> Run<'a> {
         let mark = interpose::ledger_len();
         let mut val = Inst::Val(fid);
         let sig = self.sig(t);
-        let target_ptr = self.target_ptr(t, op.kind == "unchecked" || op.kind == "libfake_unchecked");
+        let target_ptr = self.target_ptr(t, op.kind == "unchecked" || op.kind.ends_with("_unchecked"));
         // "another thread is scheduled at every OS-call boundary of the installation and calls
         // the functions": a function that already has a fake must never show anything but a fake
         let new_val: (u32, u32) = match op.kind.as_str() {
@@ -771,6 +771,8 @@ impl<'a> Run<'a> {
             "closure" => (2002, u32::MAX),
             "fakemacro" => (2003, u32::MAX),
             "fakecounted" => (2004, u32::MAX),
+            "closure_unchecked" => (2005, u32::MAX),
+            "func_unchecked" => (2000, u32::MAX),
             "realfn" => (if op.value { 2000 } else { 2001 }, u32::MAX),
             "libfake" | "libfake_unchecked" => (if tr.idx == 4 { 7001 } else { 7002 }, u32::MAX),
             _ => (fid, if tr.ret == "bool" { 0xFF } else { u32::MAX }),
@@ -808,6 +810,8 @@ impl<'a> Run<'a> {
                 "fakemacro" => inj.when_called(target_ptr).will_execute(injectorpp::fake!(func_type: fn() -> u32, returns: 2003)),
                 // an expectation that is never met: the verifier panics at scope exit
                 "fakecounted" => inj.when_called(target_ptr).will_execute(injectorpp::fake!(func_type: fn() -> u32, returns: 2004, times: 1_000_000)),
+                "closure_unchecked" => inj.when_called_unchecked(target_ptr).will_execute_raw_unchecked(injectorpp::closure_unchecked!(|| 2005, fn() -> u32)),
+                "func_unchecked" => inj.when_called_unchecked(target_ptr).will_execute_raw_unchecked(injectorpp::func_unchecked!(real_f0)),
                 "realfn" => inj.when_called(target_ptr).will_execute_raw(if op.value { injectorpp::func!(fn (real_f0)() -> u32) } else { injectorpp::func!(fn (real_f1)() -> u32) }),
                 // library code (libc) faked by a function of the test image: far apart, long trampoline form
                 "libfake" => inj.when_called(target_ptr).will_execute_raw(if tr.idx == 4 { injectorpp::func!(lib_fake_labs, unsafe extern "C" fn(libc::c_long) -> libc::c_long) } else { injectorpp::func!(lib_fake_atoi, unsafe extern "C" fn(*const libc::c_char) -> libc::c_int) }),
@@ -841,6 +845,8 @@ impl<'a> Run<'a> {
             "closure" => val = Inst::Val(2002),
             "fakemacro" => val = Inst::Val(2003),
             "fakecounted" => val = Inst::Val(2004),
+            "closure_unchecked" => val = Inst::Val(2005),
+            "func_unchecked" => val = Inst::Val(2000),
             "libfake" | "libfake_unchecked" => val = Inst::Val(if tr.idx == 4 { 7001 } else { 7002 }),
             "realfn" => val = Inst::Val(if op.value { 2000 } else { 2001 }),
             _ => {}
